@@ -57,6 +57,9 @@ func (pl ProofList) GetFirstProofU() (*ProofU, error) {
 func (pl ProofList) challengeContributions(publicKeys []*gabikeys.PublicKey, _, _ *big.Int) ([]*big.Int, error) {
 	contributions := make([]*big.Int, 0, len(pl)*2)
 	for i, proof := range pl {
+		if proof == nil {
+			return nil, errors.New("missing proof in proof list")
+		}
 		contrib, err := proof.ChallengeContribution(publicKeys[i])
 		if err != nil {
 			return nil, err
